@@ -33,11 +33,34 @@ fn value(r: &mut Rng) -> Expression {
         _ => zmm(r),
     }
 }
-fn addr(r: &mut Rng) -> Expression {
+/// An index operand as compilers emit it in indexed addressing: scaled, shifted, negated or
+/// cast (32-bit index zero-/sign-extended) - a register that is read without being the base.
+fn index(r: &mut Rng) -> Expression {
     match r.below(5) {
-        0 | 1 => sp_off(8 * r.range(-4, 3)),
-        2 => anyreg(r),
-        _ => ebin(BinOpType::IntAdd, anyreg(r), econst(8 * r.range(0, 4))),
+        0 => ebin(BinOpType::IntMult, anyreg(r), econst(*r.pick(&[2i64, 4, 8]))),
+        1 => ebin(BinOpType::IntLeft, anyreg(r), econst(r.range(1, 4))),
+        2 => Expression::UnOp { op: UnOpType::Int2Comp, arg: Box::new(anyreg(r)) },
+        3 => Expression::Cast {
+            op: *r.pick(&[CastOpType::IntZExt, CastOpType::IntSExt]),
+            size: ByteSize::new(8),
+            arg: Box::new(Expression::Subpiece { low_byte: ByteSize::new(0), size: ByteSize::new(4), arg: Box::new(anyreg(r)) }),
+        },
+        _ => anyreg(r),
+    }
+}
+fn addr(r: &mut Rng) -> Expression {
+    match r.below(8) {
+        0 | 1 | 2 => sp_off(8 * r.range(-4, 3)),
+        3 => anyreg(r),
+        4 | 5 => ebin(BinOpType::IntAdd, anyreg(r), econst(8 * r.range(0, 4))),
+        // base + index (both operand orders), optionally with a displacement
+        6 => {
+            let (b, i) = (anyreg(r), index(r));
+            let sum = if r.chance(1, 2) { ebin(BinOpType::IntAdd, b, i) } else { ebin(BinOpType::IntAdd, i, b) };
+            if r.chance(1, 3) { ebin(BinOpType::IntAdd, sum, econst(8 * r.range(1, 4))) } else { sum }
+        }
+        // table access: constant base + index
+        _ => ebin(BinOpType::IntAdd, index(r), econst(0x1000 * r.range(1, 4))),
     }
 }
 fn cmp(r: &mut Rng) -> Expression {
